@@ -51,6 +51,29 @@ pub trait NamingContext {
         }
     }
 
+    /// Compute the serialized name for an enum variant based on serde attributes
+    ///
+    /// Priority:
+    /// 1. Variant-level `#[serde(rename = "...")]` takes precedence
+    /// 2. Enum-level `#[serde(rename_all = "...")]` applies serde's rule for *variants*
+    ///    (variant identifiers are PascalCase, so the field rule would leave e.g.
+    ///    `InProgress` untouched under `snake_case`)
+    /// 3. Otherwise the variant keeps its Rust name, as serde does
+    fn compute_variant_name(
+        &self,
+        variant_name: &str,
+        variant_rename: &Option<String>,
+        enum_rename_all: &Option<RenameRule>,
+    ) -> String {
+        if let Some(rename) = variant_rename {
+            rename.to_string()
+        } else if let Some(convention) = enum_rename_all {
+            convention.apply_to_variant(variant_name)
+        } else {
+            variant_name.to_string()
+        }
+    }
+
     /// Compute the serialized name for a parameter based on serde attributes
     ///
     /// Priority:
@@ -325,6 +348,20 @@ impl FieldContext {
 
         self
     }
+
+    /// Populate this context from the FieldInfo of an enum variant
+    pub fn from_variant_info<V: TypeVisitor>(
+        self,
+        variant: &FieldInfo,
+        enum_rename_all: &Option<RenameRule>,
+        visitor: &V,
+    ) -> Self {
+        let serialized_name =
+            self.compute_variant_name(&variant.name, &variant.serde_rename, enum_rename_all);
+        let mut context = self.from_field_info(variant, enum_rename_all, visitor);
+        context.serialized_name = serialized_name;
+        context
+    }
 }
 
 /// Template context wrapper for StructInfo with computed TypeScript-specific fields
@@ -366,11 +403,19 @@ impl StructContext {
             .fields
             .iter()
             .map(|field| {
-                FieldContext::new(&self.config).from_field_info(
-                    field,
-                    &struct_info.serde_rename_all,
-                    visitor,
-                )
+                if struct_info.is_enum {
+                    FieldContext::new(&self.config).from_variant_info(
+                        field,
+                        &struct_info.serde_rename_all,
+                        visitor,
+                    )
+                } else {
+                    FieldContext::new(&self.config).from_field_info(
+                        field,
+                        &struct_info.serde_rename_all,
+                        visitor,
+                    )
+                }
             })
             .collect();
 
